@@ -345,3 +345,64 @@ def emit_nested(w, execs, nest, texec_of, per_call):
     for i in range(len(execs)):
         if i not in nest:
             emit(i)
+
+
+# ---------------------------------------------------------------- API surface worlds (every check)
+
+def surface_worlds():
+    """Fixed worlds run by EVERY check as part of the tie: the exported package-level functions
+    (plain configs go through MatchSnapshot(t,…) etc. every other call, see the harness), calls
+    without values (a warning, no ordinal consumed), the five entry points in each mode, and a
+    Clean after them."""
+    from gen import cfg_line, mode_line, Call
+    import core
+    worlds = []
+
+    def exp_warning(line, raw, w):
+        ks = [k for k, _ in line.events]
+        if ks != ['L'] or b'without params' not in line.events[0][1]:
+            return 'a call without values must log exactly one warning, got %r' % (line.events,)
+        if line.writes or line.removed:
+            return 'a call without values must not touch the file system'
+        return None
+
+    def exp_kind(kind):
+        def f(line, raw, w):
+            ks = [k for k, _ in line.events]
+            if kind == 'added' and not (ks == ['L'] and line.events[0][1].endswith(b'added') and len(line.writes) == 1):
+                return 'expected one `added` log and one written file, got %r writes=%r' % (line.events, line.writes)
+            if kind == 'silent' and (ks or line.writes or line.removed):
+                return 'expected a silent pass, got %r writes=%r' % (line.events, line.writes)
+            if kind == 'error' and not (ks == ['E'] and not line.writes):
+                return 'expected exactly one error and no write, got %r writes=%r' % (line.events, line.writes)
+            return None
+        return f
+    docs = [Call('snap', [b'alpha', b'beta\ngamma']), Call('json', b'{"b": [1, 2, {"c": null}], "a": "x"}', 's'),
+            Call('yaml', b'k: v\nlist:\n  - 1\n  - two\n', 's'), Call('sasnap', b'standalone\ntext'),
+            Call('sajson', b'{"z": 1, "y": [true, false]}', 'b')]
+    for ci, upd in ((False, ''), (False, 'true'), (True, ''), (False, 'clean')):
+        w = World('surface-%d-%s' % (ci, upd or 'unset'))
+        w.add(mode_line(False, ''))
+        w.add(cfg_line(1, 'snaps'))
+        w.add('begin 1 ' + core.hx(b'TestSurface'))
+        # twice each, so that both the package-level function and the method are used for each
+        # entry point whatever the parity of earlier calls
+        for c in docs:
+            for _ in range(2):
+                w.add(c.op(1, 1), ('surface-added', exp_kind('added')))
+                w.add('snap 1 1', ('surface-warning', exp_warning))
+        w.add('end 1')
+        w.add('reset')
+        w.add(mode_line(ci, upd))
+        w.add('begin 2 ' + core.hx(b'TestSurface'))
+        for c in docs:
+            for _ in range(2):
+                w.add(c.op(1, 2), ('surface-replay', exp_kind('silent')))
+            w.add('snap 1 2', ('surface-warning', exp_warning))
+        # one more call than recorded: created off CI, `snapshot not found` on CI
+        w.add(docs[0].op(1, 2), ('surface-extra', exp_kind('error' if ci else 'added')))
+        w.add('end 2')
+        w.add('clean 0 - 1')
+        w.add('fsdump')
+        worlds.append(w)
+    return worlds
